@@ -36,7 +36,9 @@ import ast
 from .loader import walk_local, norm, AnalysisError
 from .callgraph import bind_args
 
-MUTATORS = {"append", "extend", "insert", "pop", "popitem", "remove", "clear", "update", "setdefault", "add", "discard", "sort", "reverse", "appendleft", "popleft", "__setitem__", "__delitem__"}
+MUTATORS = {"append", "extend", "insert", "pop", "popitem", "remove", "clear", "update", "setdefault", "add", "discard", "sort", "reverse", "appendleft", "popleft", "__setitem__", "__delitem__",
+            # stream objects: content and position are state
+            "write", "writelines", "seek", "truncate", "read", "readline", "readlines", "readinto", "read1"}
 ADDERS = {"append", "extend", "insert", "add", "update", "setdefault", "appendleft"}
 LOADERS = {"get", "pop", "popitem", "setdefault", "__getitem__"}
 SHALLOW_FUNCS = {"list": "list", "dict": "dict", "set": "set", "frozenset": "set", "tuple": "list", "sorted": "list", "reversed": "list", "iter": "list", "filter": "list", "map": "list"}
